@@ -180,6 +180,48 @@ def r14_7(prog, rep):
         rep.check(text_hit, "R14.7", f"isliteral->{c.name}", f.loc, "a text member is matched on the decoded text of every carrier before the loader may re-type it", "a raw str input that is a member is returned as is, but the same text in a bytes / bytearray / memoryview carrier is only matched after serdes.load re-typed it: unmarshal(Literal['1'], '1') == '1' while unmarshal(Literal['1'], b'1') is rejected", detail="text-members")
 
 
+def r14_8(prog, rep):
+    """strload returns text that is neither JSON nor a literal unchanged, without raising: every exception class the
+    literal parser can raise on *text* is suppressed at its call (long runs of operators exhaust the parser's stack)."""
+    f = prog.function(f"{C.SERDES}.strload")
+    need = oracle.RAISE_SETS["ast.literal_eval"]
+    found = False
+    missing = set(need)
+    for p in P.paths_of(prog, f):
+        evs = p.events
+        for i, e in enumerate(evs):
+            if e[0] == "attempt" and T.contains(e[1], lambda x: T.is_call_to(x, "ast.literal_eval")) and i + 1 < len(evs) and evs[i + 1][0] in ("suppressed", "caught"):
+                found = True
+                names = P.handler_names(evs[i + 1]) or []
+                missing &= {n for n in need if not oracle.exc_covered(n, names)}
+    if not found:
+        rep.undecided("R14.8", f.qualname, f.loc, "no guarded ast.literal_eval attempt found in strload")
+        return
+    rep.check(not missing, "R14.8", f.qualname, f.loc, f"the literal fallback is guarded against {sorted(n.rsplit('.', 1)[1] for n in need)}", f"ast.literal_eval can raise {sorted(n.rsplit('.', 1)[1] for n in missing)} on ordinary text (a long path 'a/a/a/…', a slug with thousands of hyphens) and strload does not suppress it: load() raises instead of returning the text unchanged")
+
+
+def r14_9(prog, rep):
+    """The bytes routine never stringifies a bytes-like input: str() of a bytearray / memoryview is its repr (with the
+    object's address for a memoryview), not its content."""
+    rows = C.handlers(prog, "unmarshal")
+    pe = C.PredEval(prog)
+    k, r = C.route(prog, pe, rows, C.TypeArg("builtins.bytes"))
+    if k != "row" or r.routine is None:
+        rep.undecided("R14.9", "unmarshal:bytes", "", "bytes routine not found")
+        return
+    f = C.call_of(prog, r.routine)
+    bad = False
+    for p, ret in P.returns(P.paths_of(prog, f)):
+        strs = [x for x in T.walk(ret) if T.is_call_to(x, "builtins.str") and x[2] and x[2][0] == VAL]
+        if not strs:
+            continue
+        # is the bytes-like case excluded on this path?
+        excluded = any(T.is_call_to(g, "builtins.isinstance") and g[2][0] == VAL and not pol and {"builtins.bytes", "builtins.bytearray", "builtins.memoryview"} <= {T.refname(y) for y in (P.flatten_display(prog, g[2][1]) or [g[2][1]])} for g, pol in p.guards())
+        if not excluded:
+            bad = True
+    rep.check(not bad, "R14.9", r.routine.qualname, f.loc, "bytes-like inputs are converted from their content, never through str()", "a bytes-like input of another class than the target reaches str(val): unmarshal(bytes, memoryview(b'abc')) is b'<memory at 0x…>' (different on every call), unmarshal(bytearray, b'abc') is bytearray(b\"b'abc'\")")
+
+
 def _annotation_names(prog, f, pname):
     for a in f.node.args.posonlyargs + f.node.args.args + f.node.args.kwonlyargs:
         if a.arg == pname and a.annotation is not None:
@@ -322,6 +364,10 @@ def run(prog: Program, rep: Report, tier: str):
     rep.rule("R14.3", "memoised decoders receive hashable carriers only", floor=1)
     rep.rule("R14.4", "strload fallback order and suppress coverage", floor=5)
     rep.rule("R14.5", "one encoding on all encode/decode sites", floor=2)
+    rep.rule("R14.8", "strload never raises on text: the literal fallback suppresses what the parser can raise", floor=1)
+    r14_8(prog, rep)
+    rep.rule("R14.9", "the bytes routine converts bytes-like inputs from their content", floor=1)
+    r14_9(prog, rep)
     rep.rule("R14.7", "Literal text members are matched in every carrier", floor=1)
     r14_7(prog, rep)
     rep.rule("R14.6", "a memoryview carrier is decoded from the bytes of the view itself (shared with R04.10)", floor=1)
